@@ -602,3 +602,11 @@ def w2(ctx):
 def w3(ctx):
     from .c04 import a1, a2, a3
     return list(a1(ctx)) + list(a2(ctx)) + list(a3(ctx))
+
+
+@rule("C01", "W4", floor=4, kind="S",
+      desc="a write that is not acknowledged changes nothing, also in memory: the bare store edits a private copy of "
+           "the tree (same obligations as C09/K8) - a cached tree would keep the entry of a failed write and serve it")
+def w4(ctx):
+    from .c09 import private_tree_obligations
+    return private_tree_obligations(ctx)
